@@ -494,4 +494,15 @@ Proof.
     pose proof (parse_fuel_mono f (Nat.max f (fuel_for cfg ts)) _ _ _ ltac:(lia) H Hr). congruence.
 Qed.
 
+(* only a token of TYPE operator is ever read as an operator: on any other token - a string literal or a quoted
+   identifier spelling the operator included - the loop of parseOp stops and parseUnary goes on to the literal *)
+Theorem only_operator_tokens : forall f k o a u ids ts, typ_is (peek ts) tOperate = false ->
+  parse_op_loop cfg (S f) k o a u ids ts = POk (a, u, ts) /\
+  parse_unary cfg (S f) ids ts = parse_nonop cfg f ids ts.
+Proof.
+  intros f k o a u ids ts H. split.
+  - rewrite parse_op_loop_S. unfold is_op. rewrite H. reflexivity.
+  - rewrite parse_unary_S. unfold head_unary. rewrite H. reflexivity.
+Qed.
+
 End Total.
